@@ -61,7 +61,7 @@ TRUSTED_EXTRA = ['translator/gen_oallex.py (rule table, flags of the rule bodies
                  'translator/regex_ast.py (regex source -> AST through re._parser; compared with re.match on random sources)',
                  'harness/gen_oal_text.py (the writer\'s own offset/line/column counters are the position oracle)']
 CHUNK = 1500
-RX_LIMIT = 2500          # Driver/C13.lean rxLimit: the generic regex engine is run on texts up to this length
+RX_LIMIT = 1200          # Driver/C13.lean rxLimit: the generic regex engine is run on texts up to this length
 SKIP_LIMIT = 0.02         # largest tolerated share of position cases on which D could not be evaluated
 CASE_TIMEOUT_S = 12
 BUDGET_S = {'quick': 200, 'thorough': 1500}
